@@ -269,6 +269,25 @@ def uf_acos():
 
 
 PI = z3.Real("pi")
+PI_FLOAT = z3.RealVal(str(fractions.Fraction(__import__("math").pi)))
+
+
+def acos_facts(terms):
+    """sound facts about arccos on [-1,1] for the given argument terms (instantiated axioms of the uninterpreted acos)"""
+    f = uf_acos()
+    out = [PI == PI_FLOAT]
+    for t in terms:
+        r = f(t)
+        out.append(z3.Implies(z3.And(t >= -1, t <= 1),
+                              z3.And(r >= 0, r <= PI, (r == 0) == (t == 1), (r == PI) == (t == -1),
+                                     (r * 2 == PI) == (t == 0), (r * 2 < PI) == (t > 0))))
+    for i, a in enumerate(terms):
+        for b in terms[i + 1:]:
+            ra, rb = f(a), f(b)
+            out.append(z3.Implies(z3.And(a >= -1, a <= 1, b >= -1, b <= 1),
+                                  z3.And(z3.Implies(a < b, ra > rb), z3.Implies(a > b, ra < rb), z3.Implies(a == b, ra == rb),
+                                         z3.Implies(a == -b, ra == PI - rb))))
+    return out
 
 
 def rv(x):
@@ -508,7 +527,7 @@ class SR:
     def arccos(self):
         e = Engine.cur
         r = uf_acos()(self.z)
-        e.axiom(z3.And(PI > 3, PI < 4))
+        e.axiom(PI == PI_FLOAT)  # the code compares angles against scipy.constants.pi, a float: the model's pi is that number
         e.axiom(z3.Implies(z3.And(self.z >= -1, self.z <= 1),
                            z3.And(r >= 0, r <= PI, (r == 0) == (self.z == 1), (r == PI) == (self.z == -1),
                                   (r * 2 == PI) == (self.z == 0), (r * 2 < PI) == (self.z > 0))))
@@ -534,6 +553,14 @@ class SR:
 
     def conjugate(self):
         return self
+
+    def clip(self, min=None, max=None, out=None, **kw):
+        z_ = self.z
+        if min is not None:
+            z_ = z3.If(z_ >= rv(min), z_, rv(min))
+        if max is not None:
+            z_ = z3.If(z_ <= rv(max), z_, rv(max))
+        return SR(z_)
 
 
 def sym_int(x, *a):
